@@ -545,9 +545,79 @@ def waiting_sender_vs_cea(decisions):
         w.close()
 
 
+def install_points_connecting():
+    from dv import sched, simkernel as sk
+    mods = sk.load_node()
+    N, P = mods["node"].Node, mods["peer"].PeerConnection
+    sched.clear()
+    return sched.install({N._handle_connections: r"add_in_bytes|ready_w|wsock|PEER_CONNECTING|_flag_peer_as_connected|send_cer",
+                          N._flag_peer_as_connected: None, N.send_cer: None,
+                          P.work_read_queue: r"dispatch_message|from_bytes"})
+
+
+def connecting_vs_early_bytes(decisions, first="DWR"):
+    """The node's dial is in progress; it completes and the remote end sends a message at once, so that the socket
+    turns writable and readable in the same I/O-loop turn.  One schedule: the node's CER is the first thing it
+    writes, and nothing but a CEA is processed before the exchange has succeeded."""
+    from dv import sched
+    w = W.NodeWorld({"peers": [{"name": "peer1.example", "ip": ["10.1.1.1"], "persistent": True, "reconnect_wait": 1000}],
+                     "apps": [{"app_id": 4, "auth": True, "peers": [0], "handler": "answer"}],
+                     "node_timers": {"idle": 5000, "dwa": 50, "cer": 50, "cea": 50, "wakeup": 5}, "default_dial": "inprogress"})
+    try:
+        w.start()
+        if not w.conns:
+            return [], [("setup", "persistent peer not dialled")]
+        c = w.conns[0]
+        c.host = "peer1.example"
+        ex = sched.Explorer(decisions)
+        sched.attach(w.k, ex)
+        c.remote.complete_connect(True)
+        msg = {"DWR": {"k": "DWR"}, "CER": {"k": "CER", "auth": [4]}, "REQ": {"k": "REQ"}}[first]
+        w.feed_msg(c, dict(msg, host="peer1.example", hbh=0x31, e2e=0x31), run=False)
+        ex.armed = True
+        w.k.run()
+        ex.armed = False
+        w.advance(1)
+        problems = []
+        out = c.refresh()
+        if not out or not (out[0].code == W.CMD_CE and out[0].is_request):
+            problems.append(("first-frame-not-cer", f"frames written on the dialled connection, in order: {[f.brief() for f in out]}"))
+        if [f for f in out if not f.is_request]:
+            problems.append(("answered-before-exchange", f"a {first} that arrived before the node's CER was sent / answered got {[f.brief() for f in out if not f.is_request]}"))
+        if w.requests_seen:
+            problems.append(("delivered-before-exchange", "an application saw a request before the exchange"))
+        nc = w.node_conn_for(c)
+        if nc is not None and nc.state in w.mods["peer"].PEER_READY_STATES:
+            problems.append(("ready-without-cea", "the dialled connection is ready although no CEA was received"))
+        for sig, d in W.monitor_threads(w):
+            problems.append((f"thread-died/{sig}", d))
+        return ex.trace, problems
+    finally:
+        w.close()
+
+
 def schedule_part(rec, shard, nshards, thorough):
     from dv import sched
     from dv.common import fp
+    info = install_points_connecting()
+    if shard == 0:
+        rec.extra["preemption_functions_connecting"] = info
+    for first in ("DWR", "CER", "REQ"):
+        holder4 = {}
+
+        def run_four(dec, first=first):
+            tr, problems = connecting_vs_early_bytes(dec, first)
+            holder4["last"] = problems
+            return tr
+        n4 = 0
+        for dec, trace in sched.enumerate_schedules(run_four, 3 if thorough else 2, shard, nshards):
+            case = {"connecting_vs_early_bytes": first, "schedule": {str(i): c for i, c in sorted(dec.items())}}
+            for kind, detail in holder4["last"]:
+                rec.violation(f"C06/early-bytes-while-connecting/{kind}", case, detail)
+            n4 += 1
+            rec.case(fp("sched-early", first, tuple(sorted(dec.items()))) if dec else None,
+                     ["schedule-exploration", "connecting-vs-early-bytes", f"deviations:{len(dec)}"], sample=lambda: dict(case, choice_points=len(trace)))
+        rec.extra["connecting_vs_early_bytes_schedules"] = rec.extra.get("connecting_vs_early_bytes_schedules", 0) + n4
     info = install_points_waiter()
     if shard == 0:
         rec.extra["preemption_functions_waiter"] = info
@@ -679,7 +749,7 @@ def run(tier, scale=1.0):
     rec = Recorder(PID)
     for d in hyp.pool_run(shard_main, (tier, scale)):
         rec.merge(d)
-    required = {"other-peer-busy": 1, "dir:in": 1, "dir:out": 1, "outcome:ready": 1, "outcome:3010": 1, "outcome:5010": 1,
+    required = {"connecting-vs-early-bytes": 1, "waiting-sender-vs-cea": 1, "other-peer-busy": 1, "dir:in": 1, "dir:out": 1, "outcome:ready": 1, "outcome:3010": 1, "outcome:5010": 1,
                 "outcome:rejected": 1, "outcome:timeout": 1, "noise:True": 1, "len:6": 1,
                 "schedule-exploration": 1, "cfg:auth4/configured-name-mixed-case": 1, "other-peers-ready:2": 1, "pipelined-behind-rejected-cer": 1, "pipelined-behind-rejected-cea": 1}
     return finish(rec, tier=tier, level="exploration", rule=RULE, assumptions=ASSUME, t0=t0,
@@ -700,6 +770,16 @@ def replay_schedule(doc):
 
 
 def replay(doc):
+    if doc["case"].get("connecting_vs_early_bytes"):
+        install_points_connecting()
+        _, problems = connecting_vs_early_bytes({int(i): c for i, c in doc["case"]["schedule"].items()}, doc["case"]["connecting_vs_early_bytes"])
+        sigs = [f"C06/early-bytes-while-connecting/{k}" for k, _ in problems]
+        if doc["signature"] in sigs:
+            print(f"  replayed: {problems[0][1][:300]}")
+            print(f"VIOLATION property={PID} replay=(replay)")
+            return 1
+        print(f"[{PID}] replay: signature {doc['signature']} does not reproduce (got {sigs})")
+        return 0
     if doc["case"].get("waiting_sender_vs_cea"):
         install_points_waiter()
         _, problems = waiting_sender_vs_cea({int(i): c for i, c in doc["case"]["schedule"].items()})
